@@ -44,3 +44,17 @@ impl<'a> std::io::Read for FragReader<'a> {
         Ok(n)
     }
 }
+
+/// a writer that accepts at most `k` bytes per `write` call, alternating with single bytes (a socket with a small send buffer);
+/// an encoder built on `write_all` cannot tell the difference
+pub struct FragWriter { pub buf: Vec<u8>, pub k: usize, pub calls: usize }
+impl std::io::Write for FragWriter {
+    fn write(&mut self, b: &[u8]) -> std::io::Result<usize> {
+        let lim = if self.calls % 2 == 0 { self.k.max(1) } else { 1 };
+        self.calls += 1;
+        let n = b.len().min(lim);
+        self.buf.extend_from_slice(&b[..n]);
+        Ok(n)
+    }
+    fn flush(&mut self) -> std::io::Result<()> { Ok(()) }
+}
